@@ -194,6 +194,10 @@ Definition publish_len (p : publish) : outcome N :=
   pl <-o props_len PUBLISH_PROPS (p_props p) ;;
   Ok (2 + len (p_topic p) + V3.qospid_len (p_qospid p) + pl + len (p_payload p)).
 
+Definition publish_shape_len (topic_len qos props_body payload_len : N) : outcome N :=
+  pl <-o props_len_of_body props_body ;;
+  Ok (2 + topic_len + (if qos =? 0 then 0 else 2) + pl + payload_len).
+
 (* ---------- Puback / Pubrec / Pubrel / Pubcomp (four copies of the same code) ---------- *)
 Definition ack_decode (table : ptype) (h : header) : reader ack :=
   pid <- V3.pid_read ;;
@@ -215,6 +219,11 @@ Definition ack_len (a : ack) : outcome N :=
   if props_is_default (a_props a) then (if a_code a =? 0 then Ok 2 else Ok 3)
   else pl <-o props_len ACK_PROPS (a_props a) ;; Ok (3 + pl).
 
+(* ack with a non-empty property section of the given size *)
+Definition ack_shape_len (props_body : N) : outcome N :=
+  pl <-o props_len_of_body props_body ;; Ok (3 + pl).
+Definition encode_shape (blen : outcome N) : outcome N := n <-o blen ;; total_len n.
+
 (* ---------- Subscribe ---------- *)
 Definition subopts_of_u8 (b : N) : outcome subopts :=
   if 0 <? b / 64 then Err (InvalidSubscriptionOption b)
@@ -227,7 +236,7 @@ Definition subopts_to_u8 (o : subopts) : N :=
 
 Fixpoint subscribe_loop (prof : profile) (fuel : nat) (rl : N) (acc : list (tfilter * subopts))
   : reader (list (tfilter * subopts)) :=
-  if rl =? 0 then ret (rev acc) else
+  if rl =? 0 then ret (rev' acc) else
   match fuel with
   | O => rpanic SiteFuel
   | S f =>
@@ -256,7 +265,7 @@ Definition subscribe_len (s : subscribe) : outcome N :=
 
 (* ---------- Suback / Unsuback ---------- *)
 Fixpoint codes_loop (table pt : ptype) (fuel : nat) (rl : N) (acc : list N) : reader (list N) :=
-  if rl =? 0 then ret (rev acc) else
+  if rl =? 0 then ret (rev' acc) else
   match fuel with
   | O => rpanic SiteFuel
   | S f =>
@@ -279,7 +288,7 @@ Definition suback_len (s : suback) : outcome N :=
 
 (* ---------- Unsubscribe (hand-written property loop, uses the bytes of the length) ---------- *)
 Fixpoint unsubscribe_loop (prof : profile) (fuel : nat) (rl : N) (acc : list tfilter) : reader (list tfilter) :=
-  if rl =? 0 then ret (rev acc) else
+  if rl =? 0 then ret (rev' acc) else
   match fuel with
   | O => rpanic SiteFuel
   | S f =>
